@@ -147,11 +147,7 @@ def step (st : St) (s : Step) (obs : List (String Ã— List Val)) : St Ã— String Ã
     -- may-change set: variables with a cell in a region the operation's footprint touches
     let fp := footprint h s.op
     let regOf (rs : List Nat) (a : Nat) : Option Nat := rs[a]?
-    let fpRegs := fp.filterMap (regOf st.regs)
-    let may := st.env.filter (fun p => (chainList h p.2).any (fun a =>
-      match regOf st.regs a with
-      | some g => fpRegs.contains g
-      | none => false))
+    let may := st.env.filter (fun p => mayChange st.regs h s.op p.2)
     let mayNames := may.map (Â·.1)
     -- variable updates
     let env1 := match s.kind with
